@@ -152,6 +152,8 @@ class World:
             return feats + ([] if type(prim).__name__ in ("CIRRate", "VasicekRate") else ["volatility", "variance"])
         if not hasattr(self, "_kept"):
             self._kept = {p: Hedger(SumNet(), feats_for(self.prim[p])) for p in self.prim}
+            # ... and one that is evaluated for all steps at once (no prev_hedge among its inputs)
+            self._kept_all = {p: Hedger(SumNet(), [f for f in feats_for(self.prim[p]) if f != "prev_hedge"]) for p in self.prim}
         for p, prim in self.prim.items():
             have = dict(prim.named_buffers())
             if set(have) != {self.real(p, b) for b in BUFS[p]}:
@@ -160,10 +162,19 @@ class World:
                 continue
             dt = next(iter(have.values())).dtype
             d = self.deriv[p]
-            for name, fn in (("hedge", lambda h: h.compute_hedge(d)), ("P&L", lambda h: h.compute_pl(d))):
+            for name, fn, keptset in (("hedge", lambda h: h.compute_hedge(d), self._kept), ("P&L", lambda h: h.compute_pl(d), self._kept),
+                                      ("hedge (all steps at once)", lambda h: h.compute_hedge(d), self._kept_all), ("P&L (all steps at once)", lambda h: h.compute_pl(d), self._kept_all)):
                 try:
-                    kept = fn(self._kept[p])
-                    fresh = fn(Hedger(SumNet(), feats_for(prim)))
+                    kept = fn(keptset[p])
+                    names = feats_for(prim) if keptset is self._kept else [f for f in feats_for(prim) if f != "prev_hedge"]
+                    if keptset is self._kept:
+                        fresh = fn(Hedger(SumNet(), names))
+                    else:                       # ... against a fresh hedger on a freshly built derivative over the same instrument
+                        kw = {"maturity": d.maturity, "strike": d.strike}
+                        if "call" in type(d).__init__.__code__.co_varnames:
+                            kw["call"] = d.call
+                        fresh_d = type(d)(prim, **kw)
+                        fresh = Hedger(SumNet(), names).compute_hedge(fresh_d) if name.startswith("hedge") else Hedger(SumNet(), names).compute_pl(fresh_d)
                 except RuntimeError as e:
                     if dt in (torch.float16, torch.bfloat16):
                         ctx.skip("half precision: backend does not implement an operation", 1)
